@@ -214,6 +214,25 @@ func c09Run(c *Ctx) {
 			c09Judge(c, &Case{Gen: "number-shapes", Src: strings.ReplaceAll(form, "%s", lit)})
 		}
 	}
+	// 2d. sizes: texts with hundreds of characters that start no token (one per line, many per line, in
+	// between tokens), very long string literals (one line and many lines), very long identifiers, comments and digit runs
+	for _, n := range []int{1, 99, 100, 101, 150, 400, 2000} {
+		for _, shape := range []string{"@\n", "@ ", "x @ y\n", "\u201chi\u201d\n", "# $ ? \\\n"} {
+			if c.Mine() {
+				c09Judge(c, &Case{Gen: "sizes", Src: strings.Repeat(shape, n)})
+			}
+		}
+	}
+	for _, n := range []int{1022, 1023, 1024, 1025, 4096, 5000, 20000, 70000} {
+		for _, src := range []string{
+			"a = \"" + strings.Repeat("s", n) + "\"; b", "\"" + strings.Repeat("line\n", n/5) + "\" x", "\"" + strings.Repeat("\u0995\u09a5\u09be ", n/4) + "\"\n\"next\"", "\"" + strings.Repeat("q", n), // the last one is unterminated
+			strings.Repeat("i", n) + " = 1;", "1 /* " + strings.Repeat("c", n) + " */ 2", "// " + strings.Repeat("c", n) + "\nx", strings.Repeat("7", n) + " + " + strings.Repeat("\u09ed", n/3) + "." + strings.Repeat("5", n/2),
+		} {
+			if c.Mine() {
+				c09Judge(c, &Case{Gen: "sizes", Src: src})
+			}
+		}
+	}
 	// 3. keywords +- one code point must be identifiers; exact keywords are keywords
 	var kws []string
 	for k := range ref.Keywords {
@@ -285,7 +304,7 @@ func init() {
 		Assumptions: []string{"Go's unicode.IsLetter/IsMark tables define 'letter' and 'combining mark' for both the implementation and the oracle", "a diagnostic for an unterminated string/comment may name any line from its opening to the end of input"},
 		Run:         c09Run,
 		Judge:       c09Judge,
-		MustCount:   func(c *Ctx) []string { return []string{"gen:frag3", "gen:codepoint-form0", "gen:keyword-variants", "gen:operator-then-codepoint", "gen:number-shapes", "gen:random-long", "lexerr:char", "lexerr:string", "lexerr:comment", "tok:STRING", "tok:NUMBER", "tok:else", "tok:continue"} },
+		MustCount:   func(c *Ctx) []string { return []string{"gen:frag3", "gen:codepoint-form0", "gen:keyword-variants", "gen:operator-then-codepoint", "gen:number-shapes", "gen:sizes", "gen:random-long", "lexerr:char", "lexerr:string", "lexerr:comment", "tok:STRING", "tok:NUMBER", "tok:else", "tok:continue"} },
 		Exhaustive:  func(string) bool { return false },
 	})
 }
